@@ -92,6 +92,10 @@ namespace vh::pk {
         ini("pika.max_idle_backoff_time", g("max_idle_backoff_time", 1000));
         if (g("mode", -1) >= 0) ini("pika.default_scheduler_mode", g("mode"));
         ini("pika.stacks.use_guard_pages", g("guard_pages", 0));
+        if (P.has(pre + "stack_small")) ini("pika.stacks.small_size", g("stack_small"));
+        if (P.has(pre + "stack_medium")) ini("pika.stacks.medium_size", g("stack_medium"));
+        if (P.has(pre + "stack_large")) ini("pika.stacks.large_size", g("stack_large"));
+        if (P.has(pre + "stack_huge")) ini("pika.stacks.huge_size", g("stack_huge"));
         a.push_back("--pika:ini=pika.diagnostics_on_terminate=0");
         return a;
     }
